@@ -80,8 +80,8 @@ CASES = [
 CASES[[c["id"] for c in CASES].index("window-helper")] = {
     "id": "window-helper", "props": ["C19"], "kind": "benign", "why": "give-back moved into a helper",
     "edits": [
-        {"file": MP, "count": 1, "old": "        if self._prev_chunk is not None:\n            # Give the window read_chunk() holds back to the stream.\n            with warnings.catch_warnings():\n                warnings.filterwarnings(\"ignore\", category=DeprecationWarning)\n                self._content.unread_data(self._prev_chunk)\n            self._prev_chunk = None\n            self._content_eof = 0\n\n        if self._unread:\n            line = self._unread.popleft()\n",
-         "new": "        self._give_back_window()\n\n        if self._unread:\n            line = self._unread.popleft()\n"},
+        {"file": MP, "count": 1, "old": "        if self._prev_chunk is not None:\n            # Give the window read_chunk() holds back to the stream.\n            with warnings.catch_warnings():\n                warnings.filterwarnings(\"ignore\", category=DeprecationWarning)\n                self._content.unread_data(self._prev_chunk)\n            self._prev_chunk = None\n            self._content_eof = 0\n        if self._b64_carry:",
+         "new": "        self._give_back_window()\n        if self._b64_carry:"},
         {"file": MP, "count": 1, "old": "    async def readline(self) -> bytes:\n        \"\"\"Reads body part by line by line.\"\"\"\n",
          "new": "    def _give_back_window(self) -> None:\n        if self._prev_chunk is not None:\n            with warnings.catch_warnings():\n                warnings.filterwarnings(\"ignore\", category=DeprecationWarning)\n                self._content.unread_data(self._prev_chunk)\n            self._prev_chunk = None\n            self._content_eof = 0\n\n    async def readline(self) -> bytes:\n        \"\"\"Reads body part by line by line.\"\"\"\n"},
     ],
